@@ -23,6 +23,14 @@ def main():
     args = ap.parse_args()
     seed = int(os.environ.get("VERIF_SEED", "1") or "1")
     pid = args.prop.upper()
+    if args.replay:
+        # a replay file records the seed and tier of the run that wrote it; every generator is a deterministic
+        # function of those, so re-running with them regenerates the failing cases named in the file first among
+        # the run's cases and evaluates the same oracle on the current tree
+        import json
+        r = json.load(open(args.replay))
+        seed, args.tier = int(r.get("seed", seed)), r.get("tier", args.tier)
+        print("replaying %s: seed %d, tier %s, %d failing case(s) recorded" % (args.replay, seed, args.tier, len(r.get("failing", []))))
     mod = importlib.import_module("props.%s" % pid.lower())
     res = common.Result(pid, args.tier, seed)
     os.makedirs(os.path.join(common.WORK, pid), exist_ok=True)
